@@ -19,6 +19,22 @@ def rankLe (a b : Nat × Int) : Bool := decide (a.2 > b.2) || (decide (a.2 = b.2
 
 def rankCandidates (cands : List (Nat × Int)) : List (Nat × Int) := cands.mergeSort rankLe
 
+/-- Ranking used for removing the candidates beyond the first 100 (`getOrderedCandidatesLessID`, called by
+    `RecalculateStakesV2`): stake descending, then id ASCENDING. The slice that Go sorts is filled by ranging over the
+    map `c.list`, and `sort.SliceStable` keeps the (random) input order of elements that compare equal: the id tie-break is
+    what makes the order total and the pruned tail `[100:]` - and the order of the `DeleteCandidate` calls - a function
+    of the candidate set alone. -/
+def rankLessIdLe (a b : Nat × Int) : Bool := decide (a.2 > b.2) || (decide (a.2 = b.2) && decide (a.1 ≤ b.1))
+
+def pruneRankCandidates (cands : List (Nat × Int)) : List (Nat × Int) := cands.mergeSort rankLessIdLe
+
+/-- The candidates `RecalculateStakesV2` deletes, in deletion order: everything behind position `limit` (100) of the pruning order. -/
+def prunedTail (limit : Nat) (cands : List (Nat × Int)) : List (Nat × Int) := (pruneRankCandidates cands).drop limit
+
+/-- The comparator WITHOUT the id tie-break (stake only). A stable sort with it keeps the iteration order inside a group of
+    equal stakes; used only to state that the tie-break is necessary (`C08_stake_only_order_depends_on_iteration`). -/
+def stakeOnlyLe (a b : Nat × Int) : Bool := decide (a.2 ≥ b.2)
+
 /-- The syntactic patterns of a range-over-map loop whose effect is independent of the iteration order. -/
 def safePatterns : List String := ["collect-then-sort", "commutative", "lookup", "empty"]
 
